@@ -819,15 +819,21 @@ static void monitors_after_step(void)
         }
 }
 
+/* actions bound to a line barrier or to a stall are performed between service call s and s+1: they are
+ * logged as pre-actions of step s+1 */
 static int fire_actions(int when_kind, long when)
 {
         int i, fired = 0;
+        if (when_kind != 0)
+                stepno++;
         for (i = 0; i < nact; i++)
                 if (!acts[i].done && acts[i].when_kind == when_kind && acts[i].when == when) {
                         acts[i].done = 1;
                         do_act(acts[i].kind, acts[i].a1, acts[i].a2, acts[i].a3, acts[i].a3len);
                         fired++;
                 }
+        if (when_kind != 0)
+                stepno--;
         return fired;
 }
 
@@ -938,7 +944,8 @@ void w_run(long budget, long stall_n)
                         }
                 } else {
                         okrun = 0;
-                        if (activity) {
+                        /* an event being processed is progress too (its formatting steps do no io) */
+                        if (activity || cat_get_processed_command(at, CAT_FSM_TYPE_UNSOLICITED) != NULL) {
                                 idle = 0;
                         } else if (++idle >= stall_n) {
                                 idle = 0;
